@@ -775,6 +775,23 @@ func (g *ggen) stmtFnSearch() {
 }
 
 func (g *ggen) stmtMapOps() {
+	if g.r.Chance(1, 8) && g.inFn == 0 {
+		// a long array (13-20 elements: beyond the 12-element insertion-sort bound of sort.Sort/sort.Slice)
+		// of distinct values sorted by a callback under which many of them tie: the stable order shows
+		if v, fresh := g.freshVar(); fresh {
+			n := g.r.Range(13, 20)
+			parts := []string{}
+			for i := 0; i < n; i++ {
+				parts = append(parts, fmt.Sprintf("%d", (i*7)%n))
+			}
+			g.w("let " + v + " = [ " + strings.Join(parts, " , ") + " ] ;")
+			g.top().vars[v] = "map"
+			cmp := term.Pick(g.r, []string{"( p / 4 ) < ( q / 4 )", "( p / 8 ) > ( q / 8 )", "0", "( p / 3 ) <= ( q / 3 )"})
+			g.w("sort ( " + v + " , fn ( p , q ) { return " + cmp + " ; } ) ;")
+			g.w("print ( " + v + " , first ( " + v + " ) ) ;")
+			return
+		}
+	}
 	ms := g.visible("map")
 	if len(ms) == 0 {
 		v, fresh := g.freshVar()
